@@ -13,6 +13,9 @@
 //!   c01 e2el <cfg…> [opt…] <entries…> <seed> the same with a real directory as the source: the tree is created in a temp
 //!                                           dir, backed up with the `backup` command (LocalSource), restored into a
 //!                                           second dir; both directories are walked and compared
+//!   c01 big <cfg…> <files|dirs> <n> <seed>   ONE backup adding more blobs than the indexer's MAX_COUNT (n distinct chunks in a few
+//!                                           files / in n tiny directories), so that index files are written while the backup runs;
+//!                                           re-open, ls + dump + ranged reads + check; `ok <shape> <n files> chunks <n>`
 //!
 //! cfg (8 tokens): v= comp= chunker= avg= min= max= dp= tp=     opt: gf=<pack grow factor> nr=<ranged reads per file>
 //! ro=<rounds of: damage the restored tree (blob-aligned blocks overwritten, truncated, extended, touched, removed, replaced,
@@ -1144,6 +1147,126 @@ fn e2el(cfg: &Cfg, opts: &Opts, ents: Vec<PEnt>, seed: u64) -> String {
     format!("ok {}", obs.join(" "))
 }
 
+/// chunk number `i` of the `big` sources: distinct for every i (nothing deduplicates)
+fn big_chunk(i: u64, size: usize, seed: u64) -> Vec<u8> {
+    let mut v = i.to_le_bytes().to_vec();
+    v.resize(size.max(8), (seed & 255) as u8);
+    v
+}
+
+fn big_files(shape: &str, n: u64, size: usize, seed: u64) -> Option<Vec<SrcEntry>> {
+    let mut out = Vec::new();
+    match shape {
+        "files" => {
+            let f = 1 + seed % 3;
+            let mut i = 0u64;
+            for j in 0..f {
+                let cnt = if j + 1 == f { n - i } else { n / f };
+                let mut c = Vec::with_capacity(cnt as usize * size);
+                for _ in 0..cnt {
+                    c.extend_from_slice(&big_chunk(i, size, seed));
+                    i += 1;
+                }
+                out.push(SrcEntry::file(&[format!("f{j}").as_bytes()], &c));
+            }
+        }
+        "dirs" => {
+            for i in 0..n {
+                let (g, d) = (format!("g{}", i / 100), format!("d{}", i % 100));
+                out.push(SrcEntry::file(&[g.as_bytes(), d.as_bytes(), b"f"], &big_chunk(i, size, seed)));
+            }
+        }
+        _ => return None,
+    }
+    Some(out)
+}
+
+fn big(cfg: &Cfg, shape: &str, n: u64, seed: u64) -> String {
+    if !cfg.fixed || cfg.avg < 8 || cfg.avg > 4096 || n > 400_000 {
+        return "bad-op".into();
+    }
+    let Some(files) = big_files(shape, n, cfg.avg, seed) else { return "bad-op".into() };
+    let nfiles = files.len();
+    let src = MemSource::new(files);
+    let trees = if shape == "dirs" { src.entries.len() - nfiles + 1 } else { 1 };
+    if (n as usize) + trees < rustic_core::verif::indexer::MAX_COUNT {
+        return "bad-op:fewer-blobs-than-MAX_COUNT".into();
+    }
+    let h = match init_with(cfg, None) {
+        Ok(h) => h,
+        Err(e) => return format!("init-{e}"),
+    };
+    let repo = match open_nc(&h).and_then(Repository::to_indexed_ids) {
+        Ok(r) => r,
+        Err(e) => return errkind(&e),
+    };
+    let snap = match repo.archive(&BackupOptions::default(), &src, SnapshotFile::default(), &[PathBuf::from(SRC_ROOT)]) {
+        Ok(s) => s,
+        Err(e) => return format!("backup-{}", errkind(&e)),
+    };
+    drop(repo);
+    // the case has to reach the indexer's flush in the middle of the run
+    if h.be.ids(rustic_core::FileType::Index).len() < 2 {
+        return "oracle-fail:index-not-flushed".into();
+    }
+    // a new process: everything comes from the stored index files
+    let repo = match open_nc(&h).and_then(Repository::to_indexed) {
+        Ok(r) => r,
+        Err(e) => return format!("oracle-fail:reopen-{}", errkind(&e)),
+    };
+    let mut root = Node::new_node(std::ffi::OsStr::new(""), NodeType::Dir, Metadata::default());
+    root.subtree = Some(snap.tree);
+    let ls: Vec<(PathBuf, Node)> = match repo.ls(&root, &LsOptions::default()).and_then(|it| it.collect()) {
+        Ok(v) => v,
+        Err(e) => return format!("oracle-fail:ls-{}", errkind(&e)),
+    };
+    if ls.len() != src.entries.len() + 1 {
+        return format!("oracle-fail:ls-entry-count:{}:{}", ls.len(), src.entries.len() + 1);
+    }
+    let by_path: BTreeMap<Vec<u8>, &Node> = ls.iter().map(|(p, n)| (p.as_os_str().as_bytes().to_vec(), n)).collect();
+    let mut rng = Rng::new(seed);
+    let mut chunks = 0usize;
+    for e in &src.entries {
+        let Some(n) = by_path.get(&join_rel(b"src", &e.path)) else { return "oracle-fail:ls-name-missing".into() };
+        let SrcKind::File(c) = &e.kind else {
+            if !n.is_dir() {
+                return "oracle-fail:ls-dir".into();
+            }
+            continue;
+        };
+        if !n.is_file() || n.meta.size != c.len() as u64 {
+            return "oracle-fail:ls-file-meta".into();
+        }
+        chunks += n.content.iter().flatten().count();
+        let mut buf = Vec::with_capacity(c.len());
+        if let Err(err) = repo.dump(n, &mut buf) {
+            return format!("oracle-fail:dump-{}", errkind(&err));
+        }
+        if &buf != c {
+            return "oracle-fail:dump-content".into();
+        }
+        if shape == "files" || rng.chance(1, 200) {
+            let of = match repo.open_file(n) {
+                Ok(f) => f,
+                Err(err) => return format!("oracle-fail:open-{}", errkind(&err)),
+            };
+            for _ in 0..8 {
+                let off = rng.below(c.len() as u64 + 1) as usize;
+                let l = rng.below(5 * cfg.avg as u64) as usize;
+                match repo.read_file_at(&of, off, l) {
+                    Ok(b) if b.as_ref() == &c[off..(off + l).min(c.len())] => {}
+                    Ok(_) => return format!("oracle-fail:read_at-content:{off}:{l}:{}", c.len()),
+                    Err(err) => return format!("oracle-fail:read_at-{}", errkind(&err)),
+                }
+            }
+        }
+    }
+    if let Err(e) = check_clean(&h) {
+        return e;
+    }
+    format!("ok {shape} {nfiles} chunks {chunks}")
+}
+
 fn run_e2e(rest: &[&str], local: bool) -> String {
     let ncfg = 8;
     if rest.len() < ncfg + 2 {
@@ -1229,6 +1352,13 @@ pub fn exec(toks: &[&str]) -> String {
             }
             ["ixr", rest @ ..] => ixr::exec(rest),
             ["time", rest @ ..] => time::exec(rest),
+            ["big", rest @ ..] => {
+                if rest.len() != 11 {
+                    return "bad-op".into();
+                }
+                let (Some(cfg), Ok(n), Ok(seed)) = (Cfg::parse(&rest[..8]), rest[9].parse::<u64>(), rest[10].parse::<u64>()) else { return "bad-op".into() };
+                big(&cfg, rest[8], n, seed)
+            }
             ["e2e", rest @ ..] => run_e2e(rest, false),
             ["e2el", rest @ ..] => run_e2e(rest, true),
             _ => "bad-op".into(),
@@ -1397,6 +1527,15 @@ pub fn generate(thorough: bool, rng: &mut Rng, ops: &mut Vec<String>, stats: &mu
         }
         stats.hit(if std::str::from_utf8(&t).is_ok() { "link.utf8" } else { "link.non-utf8" });
         ops.push(format!("c01 link {}", hex(&t)));
+    }
+    // one backup with more blobs than the indexer collects before it writes an index file
+    let max_count = rustic_core::verif::indexer::MAX_COUNT as u64;
+    let bigs: Vec<(&str, u64)> = if thorough { vec![("files", max_count + 10_000), ("files", 2 * max_count + 5), ("dirs", max_count / 2 + 2_000), ("files", max_count + 1)] } else { vec![("files", max_count + 10_000)] };
+    for (shape, n) in bigs {
+        let size = *rng.pick(&[16usize, 32, 64]);
+        let cfg = Cfg { version: 2, comp: *rng.pick(&[None, Some(3)]), fixed: true, avg: size, min: size, max: size, dp: Some(*rng.pick(&[20_000u32, 100_000])), tp: Some(*rng.pick(&[20_000u32, 100_000])) };
+        stats.hit(format!("big.{shape}"));
+        ops.push(format!("c01 big {} {shape} {n} {}", cfg.tokens().join(" "), rng.below(1 << 32)));
     }
     // end to end: the classic mix, shaped scenarios on the in-memory source, and real directories
     let (n_classic, n_shaped, n_local) = if thorough { (1500, 120, 400) } else { (150, 24, 60) };
